@@ -8,7 +8,7 @@ import (
 
 // Byte-level fuzz input layout: data[0] selects the gas limit, data[1] the base fee, the rest is the script.
 var (
-	fuzzGas  = []int64{0, 30, 1_000, 30_000, 300_000, 3_000_000, 16_000_000, 90}
+	fuzzGas  = []int64{0, 30, 1_000, 30_000, 300_000, 3_000_000, 600_000, 90}
 	fuzzBase = []int64{defaultBaseFee, defaultBaseFee, defaultBaseFee, vm.ExecFeeFactorMultiplier, 12345, 7, 1000 * vm.ExecFeeFactorMultiplier, defaultBaseFee}
 )
 
